@@ -62,50 +62,70 @@ Definition named_principal (pr : principal) (p : path) (it : item) : option qnam
   | _, _ => None
   end.
 
-(** [test_node] : does the candidate pass the node test? Err on an unbound prefix. *)
-Definition test_node (en : env) (pr : principal) (t : nodetest) (p : path) : res bool :=
-  match lookup (e_doc en) p with
-  | None => Ok false
+(** a node test whose prefix has been resolved through the query's bindings *)
+Inductive rtest :=
+| RNode | RText | RComment | RPI
+| RPITarget (t : str)
+| RAny
+| RNsAny (uri : str)
+| RLocalAny (local : str)
+| RQName (uri local : str)
+| RName (local : str).
+
+(** Err on an unbound prefix: the handler looks the prefix up before it looks at
+    any candidate node *)
+Definition resolve_test (en : env) (t : nodetest) : res rtest :=
+  match t with
+  | NTNode => Ok RNode
+  | NTText => Ok RText
+  | NTComment => Ok RComment
+  | NTPI => Ok RPI
+  | NTPITarget tg => Ok (RPITarget tg)
+  | NTAny => Ok RAny
+  | NTNsAny pf => match assoc_str pf (e_ns en) with Some u => Ok (RNsAny u) | None => Err end
+  | NTLocalAny l => Ok (RLocalAny l)
+  | NTQName pf l => match assoc_str pf (e_ns en) with Some u => Ok (RQName u l) | None => Err end
+  | NTName l => Ok (RName l)
+  end.
+
+(** [test_node] : does the candidate pass the (resolved) node test? *)
+Definition test_node (d : anode) (pr : principal) (t : rtest) (p : path) : bool :=
+  match lookup d p with
+  | None => false
   | Some it =>
       let k := item_kind p it in
       match t with
-      | NTNode => Ok true
-      | NTText => Ok (match k with KText => true | _ => false end)
-      | NTComment => Ok (match k with KComment => true | _ => false end)
-      | NTPI => Ok (match k with KPI => true | _ => false end)
-      | NTPITarget tg =>
-          Ok (match it with ITree (ALeaf _ (LPI t' _)) => str_eqb t' tg | _ => false end)
-      | NTAny =>
-          Ok (match named_principal pr p it with
-              | Some _ => true
-              | None => match pr, it with PNs, INs _ => true | _, _ => false end
-              end)
-      | NTNsAny pf =>
-          match assoc_str pf (e_ns en) with
-          | None => Err
-          | Some u => Ok (match named_principal pr p it with
-                          | Some nm => str_eqb (q_space nm) u
-                          | None => false
-                          end)
+      | RNode => true
+      | RText => match k with KText => true | _ => false end
+      | RComment => match k with KComment => true | _ => false end
+      | RPI => match k with KPI => true | _ => false end
+      | RPITarget tg =>
+          match it with ITree (ALeaf _ (LPI t' _)) => str_eqb t' tg | _ => false end
+      | RAny =>
+          match named_principal pr p it with
+          | Some _ => true
+          | None => match pr, it with PNs, INs _ => true | _, _ => false end
           end
-      | NTLocalAny l =>
-          Ok (match named_principal pr p it with
-              | Some nm => str_eqb (q_local nm) l
-              | None => false
-              end)
-      | NTQName pf l =>
-          match assoc_str pf (e_ns en) with
-          | None => Err
-          | Some u => Ok (match named_principal pr p it with
-                          | Some nm => str_eqb (q_local nm) l && str_eqb (q_space nm) u
-                          | None => false
-                          end)
+      | RNsAny u =>
+          match named_principal pr p it with
+          | Some nm => str_eqb (q_space nm) u
+          | None => false
           end
-      | NTName l =>
-          Ok (match named_principal pr p it with
-              | Some nm => str_eqb (q_space nm) [] && str_eqb (q_local nm) l
-              | None => false
-              end)
+      | RLocalAny l =>
+          match named_principal pr p it with
+          | Some nm => str_eqb (q_local nm) l
+          | None => false
+          end
+      | RQName u l =>
+          match named_principal pr p it with
+          | Some nm => str_eqb (q_local nm) l && str_eqb (q_space nm) u
+          | None => false
+          end
+      | RName l =>
+          match named_principal pr p it with
+          | Some nm => str_eqb (q_space nm) [] && str_eqb (q_local nm) l
+          | None => false
+          end
       end
   end.
 
@@ -330,10 +350,11 @@ Fixpoint eval_args (fs : list (ctx -> res value)) (c : ctx) : res (list value) :
 (** one axis step from one context node: candidates in axis order, node test, predicates *)
 Definition step_from (en : env) (a : axis) (t : nodetest) (preds : list (ctx -> res value))
            (p : path) : res (list path) :=
-  let cands := select (e_doc en) a [p] in
-  match filter_res (test_node en (principal_of a) t) cands with
+  match resolve_test en t with
   | Err => Err
-  | Ok l => apply_preds en preds l
+  | Ok rt =>
+      apply_preds en preds
+                  (filter (test_node (e_doc en) (principal_of a) rt) (select (e_doc en) a [p]))
   end.
 
 Fixpoint concat_res {A} (f : A -> res (list path)) (l : list A) : res (list path) :=
